@@ -25,9 +25,9 @@ CHECKS = {
          "Seeded search over refinement histories (dim 1-4, versions 2/3/6/7/8, rebalancing and boundary on/off, margins, benefit answers with zeros/ties/single choices). After every evaluation every component grid is inspected through the public observation points: sorted 1-D point lists with the end points, dependence on (dimension, level) only, monotone growth, tensor structure, coefficient sum exactly 1 at every sparse-grid point, and reproduction of an arbitrary (hash-valued) function by the combined interpolant at every sparse-grid point. Sampling, not proof.",
          "Trusted: harness monitors, the keyed-hash integrand, numpy. Stubs: integrand values, error-estimator answers, clock. Everything else is the repository's code.",
          "DESIGN.md section 5, C03"),
- "C04": ("dimwise_sim", "exploration",
+ "C04": ("dimwise_sim+extendsplit_sim", "exploration",
          "deterministic simulation: refinement histories driven by simulated benefit answers with analytic exactness probes carried as extra output components; probe monitor after every evaluation",
-         "Seeded search over refinement histories and strategy options; basis functions and random combinations of the initial (lmin,lmax) sparse-grid space (affine functions with the modified basis) are carried as extra components that never steer refinement, and their reported integrals and interpolated values are compared with analytic values after every evaluation. Known findings are keyed by oracle, version, whether a level raise / a rebalancing rotation touching the probe's support has happened, so any other loss of exactness is still a violation.",
+         "Seeded search over refinement histories and strategy options of all three strategies; for the dimension-wise strategy basis functions and random combinations of the initial (lmin,lmax) sparse-grid space (affine functions with the modified basis), for extend-split and the cell strategy (lmin = lmax) random multilinear and affine functions are carried as extra components that never steer refinement, and their reported integrals and interpolated values are compared with analytic values after every evaluation. Known findings are keyed by oracle, version, whether a level raise / a rebalancing rotation touching the probe's support has happened, so any other loss of exactness is still a violation.",
          "Trusted: analytic hat/linear integrals in simcore/env.py (R-hier pieces), rounding bound. Stubs as C03.",
          "DESIGN.md section 5, C04"),
  "C06": ("dimwise_sim", "exploration",
